@@ -43,4 +43,13 @@ PROPS = {
     "C19": {
         "rule": "op 3: all strings of length <= 3 (quick) / <= 4 (thorough) over the 25-byte boundary alphabet x sizes 0..6, random strings up to 70000 bytes x sizes incl. 0 and 65535; op 8 on messages whose ids are arbitrary bytes.",
     },
+    "C14": {
+        "special": "ti_sweep",
+        "exhaustive_thorough": True,
+        "rule": "op 7 on all 256 MSIN bytes; op 8 on complete messages for all 256 HTYP bytes (two variants each); op 4 on boundary and seeded type-info words; plus the ti-sweep: the model's table of the 2^18 low words (reduction proved as c14_ti_low) against TypeInfo::try_from/as_bytes on 2^18 x 64 high-bit patterns (quick) or all 2^32 words (thorough), with the independent oracle evaluated on every word. In the sweep a word counts as non-trivial when the model accepts it.",
+    },
+    "C10": {
+        "rule": "op 32: streams of 0-5 parts of 0-4 well-formed messages each (ids from a small vocabulary so they repeat, incl. the literal NONE and the empty id; half log messages incl. invalid levels; with/without extended header and ECU id; both storage modes), scanned by collect_statistics through the real reader with a recording collector; the parts merged left-to-right, right-to-left, balanced and right-nested.",
+        "assumptions": ["usize counters modelled as unbounded N", "FxHashMap iteration order abstracted (results compared sorted by id)"],
+    },
 }
